@@ -4,8 +4,8 @@
 //!
 //! Usage:  rs2coq <src-dir>            (prints gen/Src.v on stdout: rules 1-13 only; see run.sh)
 //!         rs2coq <src-dir> <out-dir>  (writes Src.v, SrcBigint.v, SrcSlow.v, SrcParse.v and the four
-//!                                      SrcFront*.v, SrcStackVec.v, SrcHeapVec.v into the existing
-//!                                      directory <out-dir>: rules 1-31; the front-ends are read below
+//!                                      seven SrcFront*.v, SrcStackVec.v, SrcHeapVec.v into the
+//!                                      existing directory <out-dir>: rules 1-31; the front-ends are read below
 //!                                      <src-dir>/..)
 //!
 //! # TRANSLATION RULES (this program is part of the trusted base; the rules are deliberately dumb)
@@ -193,6 +193,16 @@
 //!     `minimal_lexical::parse_float` = `rs_parse_float` of parse.rs (lib.rs is checked to say
 //!     `pub use self::parse::parse_float;`).  A missing / unparsable front-end file, or a function
 //!     that cannot be translated, is OMITTED in that front-end's output file only.
+//!     Three further copies hold the same helpers among test drivers: etc/correctness/rng-tests/
+//!     _common.rs (tag rng), test-parse-random/_common.rs (rand), test-parse-unittests/main.rs
+//!     (unit) -> gen/SrcFrontRng.v, SrcFrontRand.v, SrcFrontUnit.v.  For these the pre-pass is
+//!     LENIENT: inside the target functions every check applies; of the other items (`validate`,
+//!     serde structs, `main`, `SEED`, ..) only what could shadow a name the targets use is refused:
+//!     `cfg` / `cfg_attr` / `path` attributes anywhere, glob imports other than today's
+//!     (`std::io::prelude::*`), an import / item / module / macro / extern crate spelled like a std
+//!     name with a fixed meaning, like one of the helper functions or `minimal_lexical`, lower-case
+//!     constants and statics (constant patterns), item-position macro invocations, renamed
+//!     `extern crate`s; impl blocks, other imports, other attributes and modules are not restricted.
 //!
 //! Rules 28-30 ("raw mode") translate the unsafe vector back-end: every function of `impl StackVec`
 //! (stackvec.rs), its `Deref::deref`, and once more `bigint::shl_limbs`, over the cell-level memory
@@ -350,6 +360,11 @@
 //!          `[[example]]`, `[[bin]]`, `[[bench]]`, nor a `build` key; `build.rs` may not exist (exit 2).
 //! C-STALE  now also between the receiver of `map_or` and its default argument.
 //!
+//! C-NIGHTLY  rule 12 DROPS the statements under `#[cfg(feature = "nightly")]`, so they are pinned:
+//!          the only accepted one is, token for token, `let _cw = set_precision::<F>();` in
+//!          `Number::try_fast_path` (number.rs; with the whitelisted import of `set_precision` and
+//!          fpu.rs still being `#![cfg(feature = "nightly")]`); a new or changed nightly-gated
+//!          statement is exit 2 in number.rs / the declaration files, OMITTED elsewhere.
 //! C-PRIM   ("pinned primitives") the functions that the translation calls BY NAME with the meaning
 //!          of a hand model (rule 10) are not translated, so their text - attributes (doc comments
 //!          excepted), visibility, signature and body, as `quote!` prints them - must be, token for
@@ -427,7 +442,7 @@ const fn tn(out: usize, file: &'static str, owner: &'static str, name: &'static 
     Target { out, file, owner, name, fuel: 0, fuels, coq, shown: "", raw: false, heap: false }
 }
 
-const OUT_FILES: [&str; 10] = [
+const OUT_FILES: [&str; 13] = [
     "Src.v",
     "SrcBigint.v",
     "SrcSlow.v",
@@ -438,6 +453,9 @@ const OUT_FILES: [&str; 10] = [
     "SrcFrontEtc.v",
     "SrcStackVec.v",
     "SrcHeapVec.v",
+    "SrcFrontRng.v",
+    "SrcFrontRand.v",
+    "SrcFrontUnit.v",
 ];
 
 /// rule 31: gen/SrcHeapVec.v = the non-delegating functions of `impl HeapVec` (dependency order)
@@ -479,11 +497,15 @@ const RAW_FNS: [(&str, &str, &str, &str); 17] = [
 ];
 
 /// rule 27: the shipped copies of the string front-end: (tag, path below the repository root)
-const FRONT: [(&str, &str); 4] = [
-    ("simple", "examples/simple.rs"),
-    ("fuzz", "fuzz/fuzz_targets/parse.rs"),
-    ("test", "tests/integration_tests.rs"),
-    ("etc", "etc/correctness/test-parse-golang/main.rs"),
+/// (tag, path, output index, lenient pre-pass: only the parser helpers are guarded)
+const FRONT: [(&str, &str, usize, bool); 7] = [
+    ("simple", "examples/simple.rs", 4, false),
+    ("fuzz", "fuzz/fuzz_targets/parse.rs", 5, false),
+    ("test", "tests/integration_tests.rs", 6, false),
+    ("etc", "etc/correctness/test-parse-golang/main.rs", 7, false),
+    ("rng", "etc/correctness/rng-tests/_common.rs", 10, true),
+    ("rand", "etc/correctness/test-parse-random/_common.rs", 11, true),
+    ("unit", "etc/correctness/test-parse-unittests/main.rs", 12, true),
 ];
 /// their functions (dependency order) with the fuel expressions of their loops
 const FRONT_FNS: [(&str, &[&str]); 12] = [
@@ -1512,15 +1534,17 @@ fn main() {
                 });
             }
         }
-        for (i, (tag, rel)) in FRONT.iter().enumerate() {
-            let out = 4 + i;
+        for (tag, rel, out, lenient) in FRONT.iter() {
+            let out = *out;
             let fkey: &'static str = Box::leak(format!("front_{}", tag).into_boxed_str());
             let path = format!("{}/../{}", dir, rel);
             let parsed = std::fs::read_to_string(&path)
                 .map_err(|e| format!("cannot read {}: {}", path, e))
                 .and_then(|src| syn::parse_file(&src).map_err(|e| format!("{}: parse error: {}", path, e)));
             // the pre-pass, with the front-end's own names
-            let parsed = parsed.and_then(|f| match check::check_file(fkey, &f, &known_front(fkey)).first() {
+            let names: Vec<&str> = FRONT_FNS.iter().map(|(n, _)| *n).collect();
+            let mode = if *lenient { Some(names.as_slice()) } else { None };
+            let parsed = parsed.and_then(|f| match check::check_file_mode(fkey, &f, &known_front(fkey), mode).first() {
                 Some(e) => Err(format!("{}: {}", rel, e)),
                 None => Ok(f),
             });
